@@ -3,6 +3,7 @@
 mod gen_cluster;
 mod gen_confchange;
 mod gen_inflights;
+mod gen_memstorage;
 mod gen_quorum;
 mod gen_raftlog;
 mod rng;
@@ -25,6 +26,7 @@ fn replay(path: &str, out: &mut dyn Write) -> u64 {
     let mut quo = gen_quorum::Exec::default();
     let mut cc = gen_confchange::Exec::default();
     let mut rl = gen_raftlog::Exec::default();
+    let mut ms = gen_memstorage::Exec::default();
     let mut n = 0;
     for line in text.lines() {
         let lhs = line.split(" -> ").next().unwrap_or("");
@@ -37,6 +39,7 @@ fn replay(path: &str, out: &mut dyn Write) -> u64 {
             "q" => quo.exec(&toks[1..]),
             "cc" => cc.exec(&toks[1..]),
             "rl" => rl.exec(&toks[1..]),
+            "ms" => ms.exec(&toks[1..]),
             _ => "bad-op".to_string(),
         };
         writeln!(out, "{} -> {}", lhs.trim(), obs).unwrap();
@@ -84,11 +87,15 @@ fn cluster(args: &[String], seed: u64, out: &mut dyn Write) -> u64 {
     let voters: usize = arg(args, "--voters", 0);
     let learners: usize = arg(args, "--learners", 0);
     let report: String = arg(args, "--report", String::new());
+    let run_seed: u64 = arg(args, "--run-seed", 0);
+    let runs = if run_seed != 0 { 1 } else { runs };
     let mut rep = if report.is_empty() { None } else { Some(std::fs::File::create(&report).expect("report file")) };
     let mut lines = 0u64;
+    let mut distinct: std::collections::HashSet<u64> = std::collections::HashSet::new();
+    let mut kinds: std::collections::BTreeMap<String, u64> = std::collections::BTreeMap::new();
     for r in 0..runs {
         let params = gen_cluster::Params {
-            seed: seed.wrapping_mul(1_000_003).wrapping_add(r),
+            seed: if run_seed != 0 { run_seed } else { seed.wrapping_mul(1_000_003).wrapping_add(r) },
             steps,
             reconfig,
             emit_p,
@@ -97,6 +104,12 @@ fn cluster(args: &[String], seed: u64, out: &mut dyn Write) -> u64 {
         };
         let res = gen_cluster::run_one(params, out);
         lines += res.p_lines as u64;
+        for h in &res.ev_hashes {
+            distinct.insert(*h);
+        }
+        for (k, v) in &res.ev_kinds {
+            *kinds.entry(k.clone()).or_insert(0) += v;
+        }
         if let Some(f) = rep.as_mut() {
             let viol: Vec<String> = res.violations.iter().map(|v| format!("{{\"prop\":{},\"text\":{},\"step\":{}}}", json_str(v.prop), json_str(&v.text), v.step)).collect();
             let stats: Vec<String> = res.stats.iter().map(|(k, v)| format!("{}:{}", json_str(k), v)).collect();
@@ -104,6 +117,10 @@ fn cluster(args: &[String], seed: u64, out: &mut dyn Write) -> u64 {
             writeln!(f, "{{\"seed\":{},\"p_lines\":{},\"p_end\":{},\"violations\":[{}],\"stats\":{{{}}},\"history\":[{}]}}",
                 res.seed, res.p_lines, json_str(&res.p_end), viol.join(","), stats.join(","), hist.join(",")).unwrap();
         }
+    }
+    if let Some(f) = rep.as_mut() {
+        let ks: Vec<String> = kinds.iter().map(|(k, v)| format!("{}:{}", json_str(k), v)).collect();
+        writeln!(f, "{{\"summary\":true,\"p_lines\":{},\"distinct_events\":{},\"event_kinds\":{{{}}}}}", lines, distinct.len(), ks.join(",")).unwrap();
     }
     lines
 }
@@ -159,6 +176,13 @@ fn real_main() {
                 gen_raftlog::exhaustive(arg(&args, "--len", 3), &mut out)
             } else {
                 gen_raftlog::random(seed, arg(&args, "--cases", 5000), arg(&args, "--len", 40), &mut out)
+            }
+        }
+        "memstorage" => {
+            if args.iter().any(|a| a == "--exhaustive") {
+                gen_memstorage::exhaustive(arg(&args, "--max-log", 4), arg(&args, "--len", 3), arg(&args, "--prefixes", 3), &mut out)
+            } else {
+                gen_memstorage::random(seed ^ (arg::<u64>(&args, "--stream", 0) << 32), arg(&args, "--cases", 3000), arg(&args, "--len", 25), &mut out)
             }
         }
         "cluster" => cluster(&args, seed, &mut out),
